@@ -4,8 +4,10 @@ package main
 
 import (
 	"fmt"
+	"go/ast"
 	"go/token"
 	"go/types"
+	"sort"
 	"strings"
 
 	"golang.org/x/tools/go/ssa"
@@ -313,14 +315,20 @@ func closeOnceRule(c *Ctx, rule string, rels []string, floorN int) {
 			// K2: the function runs once per object (single go site, no direct calls) and closes once per run
 			if idiom == "" {
 				gos := goSitesOf(P, fn)
-				if len(gos) == 1 && directCallsOf(P, fn) == 0 && perPathOK[f] && complete && exclusiveWithSpawned(P, fn, f) {
+				sameParent := len(gos) >= 1
+				for _, g2 := range gos {
+					if g2.Parent() != gos[0].Parent() {
+						sameParent = false
+					}
+				}
+				if sameParent && directCallsOf(P, fn) == 0 && perPathOK[f] && complete && exclusiveWithSpawned(P, fn, f) {
 					g := gos[0]
 					gf := g.Parent()
 					// the go site itself is once-per-object: object constructed in that function, or the site is
 					// under the object's lock after a state test, or in a go-once function
 					recv := g.Call.Args[0]
-					once := isConstruction(recv)
-					if !once {
+					once := len(gos) == 1 && isConstruction(recv)
+					if !once && len(gos) == 1 {
 						gh := heldLocks(gf, entryLocks(gf, ann))
 						st := locksAt(gf, gh, g)
 						gbase := apString(recv)
@@ -343,9 +351,11 @@ func closeOnceRule(c *Ctx, rule string, rels []string, floorN int) {
 							n := 0
 							seen := map[ssa.Instruction]bool{}
 							p.ForEach(func(i int, ins ssa.Instruction) bool {
-								if ins == ssa.Instruction(g) && !seen[ins] {
-									seen[ins] = true
-									n++
+								for _, g2 := range gos {
+									if ins == ssa.Instruction(g2) && !seen[ins] {
+										seen[ins] = true
+										n++
+									}
 								}
 								return true
 							})
@@ -953,16 +963,57 @@ func unreliableSendRule(c *Ctx, rule string) {
 		return constInt(v)
 	}
 	nSends := 0
-	for _, f := range P.ModuleFuncs("tubes") {
+	sendsHere := func(f *ssa.Function) bool {
 		has := false
 		eachInstr(f, func(ins ssa.Instruction) {
 			if s, ok := ins.(*ssa.Send); ok && lastField(s.Chan) == fSQ {
 				has = true
 			}
 		})
-		if !has {
+		return has
+	}
+	// a sending helper shared by several callers (unexported, only static calls from this package) is
+	// judged where it is called: the path walker enters it, so its send appears on the callers' paths
+	isSharedHelper := func(f *ssa.Function) bool {
+		if f.Parent() != nil || ast.IsExported(f.Name()) {
+			return false
+		}
+		edges := P.Callers(f)
+		if len(edges) == 0 {
+			return false
+		}
+		for _, e := range edges {
+			if e.Site == nil || e.Site.Common().StaticCallee() != f || e.Caller.Func.Pkg != f.Pkg {
+				return false
+			}
+			if _, isGo := e.Site.(*ssa.Go); isGo {
+				return false
+			}
+			if !localHelper(e.Caller.Func, f) {
+				return false
+			}
+		}
+		return true
+	}
+	roots := map[*ssa.Function]bool{}
+	for _, f := range P.ModuleFuncs("tubes") {
+		if !sendsHere(f) {
 			continue
 		}
+		if isSharedHelper(f) {
+			for _, e := range P.Callers(f) {
+				roots[e.Caller.Func] = true
+			}
+			continue
+		}
+		roots[f] = true
+	}
+	var rootList []*ssa.Function
+	for f := range roots {
+		rootList = append(rootList, f)
+	}
+	sort.Slice(rootList, func(i, j int) bool { return FuncName(rootList[i]) < FuncName(rootList[j]) })
+	for _, f := range rootList {
 		name := FuncName(f)
 		c.Analysed(name)
 		fs := newFailSet()
